@@ -12,6 +12,8 @@ RULE = ("Generated: state type in {positive, complex}, num_visible 1..5 x num_hi
         "(type,n,nh) of the box with generated parameters. Oracle: brute-force hidden-unit marginal (explicit sum over "
         "2^nh hidden configurations). Non-trivial = every bias vector of every network has a non-zero entry AND some "
         "|parameter| >= 0.5; distinct = SHA-1 of the canonical JSON of the case.")
+RULE_EXT = ('Extended as built: n up to 10 (1/16 of cases), structured parameter families (equal / alternating / extreme entries), complex states built from a user module half the time; every evaluation is repeated after read-only operations, after evaluating a second object, and along the in-place history A -> B -> (biases of A, weights of B) -> A; sample batches as rank-3, float32, int64 and uint8 tensors; aliases compute_normalization and importance_sampling_numerator/denominator/weight are compared with the same reference.')
+RULE = RULE + " " + RULE_EXT
 ASSUMPTIONS = ["CPU only", "parameters rescaled by construction so that |log weight| <= 300 (double-precision exp range)",
                "rtol 1e-7 against the enumeration oracle (softplus threshold e^-20 per hidden unit), 1e-9 between library outputs"]
 
